@@ -131,6 +131,7 @@ def hist_common_extras(agg):
         templates=dict(T1_straddle=agg.n("template_T1"), T2_tombstone=agg.n("template_T2"),
                        T3_overlap=agg.n("template_T3"), T4_level0_chain=agg.n("template_T4")),
         straddle_layouts_seen=agg.n("c14_straddle_layouts"),
+        flushes_forced_in_the_middle_of_a_compaction=agg.n("midc_flush_during_compaction"),
         distinct_layout_signatures=agg.d("layout"),
     )
 
